@@ -72,7 +72,7 @@ struct Setup {
 }
 
 pub fn c05_encrypt(ctx: &Ctx, out: &mut RunOut) -> Result<(), Violation> {
-    for k in ["save-load-leg", "auto-decrypted-on-load", "decrypt-with-owner-pw", "wrong-password-rejected", "crypt-filter-override", "metadata-stream", "state-rejected-input"] {
+    for k in ["save-load-leg", "auto-decrypted-on-load", "decrypt-with-owner-pw", "wrong-password-rejected", "crypt-filter-override", "metadata-stream", "metadata-dictionary", "state-rejected-input"] {
         ctx.count_n(k, 0); // registered so that a probe that never fires shows up as zero in the evidence
     }
     ctx.set_rng_mode(RNG_MODES[ctx.draw(R, RNG_MODES.len() as u64, "rng-mode") as usize]);
@@ -207,6 +207,18 @@ pub fn c05_encrypt(ctx: &Ctx, out: &mut RunOut) -> Result<(), Violation> {
         special.push(((next_id, 0), if setup.encrypt_metadata { Some(setup.stm_kind) } else { None }));
         next_id += 1;
         ctx.count("metadata-stream");
+    }
+    // a plain dictionary (not a stream) that calls itself /Type /Metadata, with strings in it and
+    // below it: whatever the handler decides about it, both directions must decide the same
+    if ctx.chance(W, 1, 4, "add-metadata-dict") {
+        let d = vec![
+            (b"Type".to_vec(), MObj::Name(b"Metadata".to_vec())),
+            (b"Note".to_vec(), MObj::Str(b"a note of more than sixteen bytes".to_vec(), false)),
+            (b"History".to_vec(), MObj::Array(vec![MObj::Str(b"0123456789abcdef0123".to_vec(), true), MObj::Dict(vec![(b"By".to_vec(), MObj::Str(b"somebody, some time ago".to_vec(), false))])])),
+        ];
+        m.objects.insert((next_id, 0), MObj::Dict(d));
+        next_id += 1;
+        ctx.count("metadata-dictionary");
     }
     if setup.revision >= 4 && ctx.chance(W, 1, 2, "add-crypt-override") {
         let keys: Vec<Vec<u8>> = setup.filters.keys().cloned().collect();
